@@ -10,6 +10,7 @@ import (
 	"io"
 	"io/fs"
 	"os"
+	"path"
 
 	rt "github.com/akalin/gopar/internal/zzverifrt"
 	"github.com/klauspost/reedsolomon"
@@ -29,6 +30,18 @@ type symFS struct {
 	tornLen   int
 	nRead     int
 	nWrite    int
+	cwd       string // when set, relative paths are resolved against it and cleaned
+}
+
+// resolve maps a path as the program spells it to the file it names.
+func (f *symFS) resolve(p string) string {
+	if f.cwd == "" {
+		return p
+	}
+	if len(p) == 0 || p[0] != '/' {
+		p = f.cwd + "/" + p
+	}
+	return path.Clean(p)
 }
 
 func newSymFS() *symFS { return &symFS{files: map[string][]byte{}, tornLen: -1} }
@@ -57,6 +70,7 @@ type ioFault struct{ op string }
 func (e *ioFault) Error() string { return "injected I/O error during " + e.op }
 
 func (f *symFS) ReadFile(path string) ([]byte, error) {
+	path = f.resolve(path)
 	f.nRead++
 	if f.failRead == f.nRead {
 		return nil, &ioFault{"read"}
@@ -76,6 +90,7 @@ func (f *symFS) ReadFile(path string) ([]byte, error) {
 func isDir(path string) bool { return path == "/" || path == "/d" || path == "." || path == ".." }
 
 func (f *symFS) WriteFile(path string, data []byte) error {
+	path = f.resolve(path)
 	f.nWrite++
 	if isDir(path) {
 		return &ioFault{"write to a directory"}
@@ -325,9 +340,17 @@ func (s *stubRS) Reconstruct(shards [][]byte) error {
 	return nil
 }
 
-func (s *stubRS) EncodeIdx(dataShard []byte, idx int, parity [][]byte) error { panic("stub: EncodeIdx not used") }
-func (s *stubRS) ReconstructData(shards [][]byte) error                        { panic("stub: ReconstructData not used") }
-func (s *stubRS) ReconstructSome(shards [][]byte, required []bool) error       { panic("stub: ReconstructSome not used") }
-func (s *stubRS) Update(shards [][]byte, newDatashards [][]byte) error         { panic("stub: Update not used") }
-func (s *stubRS) Split(data []byte) ([][]byte, error)                          { panic("stub: Split not used") }
-func (s *stubRS) Join(dst io.Writer, shards [][]byte, outSize int) error       { panic("stub: Join not used") }
+func (s *stubRS) EncodeIdx(dataShard []byte, idx int, parity [][]byte) error {
+	panic("stub: EncodeIdx not used")
+}
+func (s *stubRS) ReconstructData(shards [][]byte) error { panic("stub: ReconstructData not used") }
+func (s *stubRS) ReconstructSome(shards [][]byte, required []bool) error {
+	panic("stub: ReconstructSome not used")
+}
+func (s *stubRS) Update(shards [][]byte, newDatashards [][]byte) error {
+	panic("stub: Update not used")
+}
+func (s *stubRS) Split(data []byte) ([][]byte, error) { panic("stub: Split not used") }
+func (s *stubRS) Join(dst io.Writer, shards [][]byte, outSize int) error {
+	panic("stub: Join not used")
+}
